@@ -57,7 +57,7 @@ def _ns():
         'mappingproxy': types.MappingProxyType, 'frozenset': frozenset, 'set': set, 'bytearray': bytearray,
         'complex': complex, 'range': range, 'BareMapping': BareMapping,
     }
-    for n in ('EnumInt', 'EnumStr', 'EnumMixed', 'EnumStrMix', 'EnumIntMix', 'SubStr', 'SubInt', 'SubFloat', 'SubList', 'SubDict'):
+    for n in ('EnumInt', 'EnumStr', 'EnumMixed', 'EnumStrMix', 'EnumIntMix', 'EnumNum', 'SubStr', 'SubInt', 'SubFloat', 'SubList', 'SubDict'):
         ns[n] = getattr(grammar, n)
     ns['dc'] = grammar.dc_class
     return ns
@@ -234,7 +234,7 @@ def kind(v) -> str:
 # ------------------------------------------------------------------ the fixed pool of interchange values
 
 POOL: t.List[t.Any] = [
-    None, True, False, 0, 1, -1, 7, 10 ** 20, 0.0, -0.0, 1.5, -2.0, INF, NAN, 1e300, complex(1, 2),
+    None, True, False, 0, 1, -1, 7, 10 ** 20, 0.0, -0.0, 1.5, -2.0, 1.0, INF, NAN, 1e300, complex(1, 2),
     '', 'a', 'abc', 'x', '12', '1.5', 'true', '2023-09-05', '11:11:11', '2023-09-05T11:11:11', '1/3', 'a/b', '(',
     b'', b'ab', bytearray(b'ab'),
     [], [1], [1, 2], ['a'], [1, 'a'], [[1]], [None], [True], [1.5], (), (1,), (1, 2), ('a', 1), (1, 'x'), [1, 2, 3],
